@@ -34,19 +34,23 @@ GROUPS = [
     {G2: ["b", "period"]},
     {G2: ["b", "beh-ar"]},
     {G1: ["a", "A-cy", "x.alt"], G2: ["b", "period", "beh-ar"]},
+    # 8: pairwise script-mixing groups (Cyrl+Grek on side 1, Cyrl+Latn on side 2): script buckets
+    #    must be merged transitively
+    {G1: ["A-cy", "alpha"], G2: ["A-cy", "b"]},
 ]
 SIDE1 = ["a", "alef-ar", "one", "period", "acutecomb", "ka-deva", "@1"]
 SIDE2 = ["b", "beh-ar", "one", "period", "acutecomb", "A-cy", "ka-deva", "@2"]
 VALUES = [-50, 35, 0, 6.5, -7.5]
 
-ENVS = ["categories", "ls-dflt", "ls-multi", "gsub-alt", "skip-b", "missing-in-group", "q5", "q10",
-        "no-ignoremarks"]
+ENVS = ["categories", "ls-dflt", "ls-multi", "gsub-alt", "gsub-neutral-alt", "skip-b", "missing-in-group",
+        "q5", "q10", "no-ignoremarks"]
 
 FEA = {
     "ls-dflt": "languagesystem DFLT dflt;\n",
     "ls-multi": "languagesystem DFLT dflt;\nlanguagesystem latn dflt;\nlanguagesystem latn TRK;\n"
                 "languagesystem arab dflt;\n",
     "gsub-alt": "feature salt { sub a by x.alt; } salt;\n",
+    "gsub-neutral-alt": "feature salt { sub period by x.alt; } salt;\n",
 }
 
 
@@ -66,6 +70,7 @@ def glyph_props(env):
         out[name] = (ext, bt, unicodedata.category(ch).startswith("M"))
     if "gsub-alt" in env:
         out["x.alt"] = (set(out["a"][0]), out["a"][1], False)
+    # "gsub-neutral-alt": x.alt is an alternate of the script-neutral period and stays neutral
     return out
 
 
@@ -261,10 +266,10 @@ class C05(Property):
 
     def bounds(self, tier):
         if tier == "quick":
-            return {"depth": 3, "groups": [0, 1, 4, 5, 7], "w2_deep": [7], "values1": [-50, 6.5],
+            return {"depth": 3, "groups": [0, 1, 4, 5, 7], "w2_deep": [7], "merge_max": 4, "values1": [-50, 6.5],
                     "values2": [35, 0, -7.5],
                     "env_depth1": True, "lattice": True, "lattice_values": [-50, 35, 0]}
-        return {"depth": 3, "groups": list(range(len(GROUPS))), "w2_deep": [0, 1, 2, 4, 5, 7],
+        return {"depth": 3, "groups": list(range(len(GROUPS))), "w2_deep": [0, 1, 2, 4, 5, 7], "merge_max": 5,
                 "values1": VALUES, "values2": VALUES,
                 "env_depth1": True, "lattice": True, "lattice_values": [-50, 35, 0, 6.5]}
 
@@ -293,6 +298,14 @@ class C05(Property):
                 if len(ent) >= 2:
                     for env in ([], ["categories"]):
                         out.append([{"G": 7, "env": env, "expand": False}] + ent)
+            # cross-script bucket merging (group config 8): every ordered selection of >= 2 of these
+            # entries, because the bucket order follows the kerning insertion order
+            if 8 in b["groups"] or True:
+                pool = [["a", "b", -50], ["@1", "alpha", -20], ["A-cy", "@2", 35], ["alpha", "alpha", -90],
+                        ["@1", "@2", 6.5]]
+                for r in range(2, b["merge_max"] + 1):
+                    for sel in itertools.permutations(pool, r):
+                        out.append([{"G": 8, "env": [], "expand": False}] + [list(e) for e in sel])
             # same lattice on an RTL pair and on a neutral pair
             for (p1, p2) in (("alef-ar", "beh-ar"), ("period", "period")):
                 for combo in itertools.product(vals, repeat=2):
